@@ -206,10 +206,23 @@ terminated here); then the genuine data and block 3 -/
 def wJunkOps : List JOp := [.op (.ev (.hdr 1)), .junk wJunk2, .op (.ev (.hdr 2))]
 def wJunkRest : List JOp := [.op (.ev (.dat 2)), .op (.ev (.hdr 3)), .op (.ev (.dat 3))]
 
-/-- what remains: the genuine data of block 2 is cached (and marked seen) first, junk data for height 2 replaces it,
-header 2 arrives (the junk is dropped); every later delivery of the genuine data is dropped as already seen -/
+/-- what remains: the genuine data of block 2 is cached first, a junk item for height 2 replaces it (one slot per
+height), header 2 arrives (the junk is dropped); block 3 arrives completely — the genuine data 2 is not delivered again -/
 def wJunkStall : List JOp :=
-  [.op (.ev (.hdr 1)), .op (.ev (.dat 2)), .junk wJunk2, .op (.ev (.hdr 2))] ++ wAll.map .op ++ wAll.map .op
+  [.op (.ev (.hdr 1)), .op (.ev (.dat 2)), .junk wJunk2, .op (.ev (.hdr 2)), .op (.ev (.hdr 3)), .op (.ev (.dat 3))]
+
+/-- a junk item that **copies the genuine transactions** of block 2 (so it has the genuine data commitment, which
+ignores metadata) under a wrong time: `types.Validate` rejects it against header 2 -/
+def wJunkSame2 : Data := match wch3 2 with
+  | some b => { b.data with metadata := b.data.metadata.map fun m => { m with time := m.time + 1 } }
+  | none => {}
+
+/-- the defect repaired by /repo c3c43a6, both orders: the copy arrives before header 2 / after header 2; then the
+genuine data 2 and block 3 -/
+def wSameA : List JOp := [.op (.ev (.hdr 1)), .junk wJunkSame2, .op (.ev (.hdr 2)), .op (.ev (.dat 2)),
+  .op (.ev (.hdr 3)), .op (.ev (.dat 3))]
+def wSameB : List JOp := [.op (.ev (.hdr 1)), .op (.ev (.hdr 2)), .junk wJunkSame2, .op (.ev (.dat 2)),
+  .op (.ev (.hdr 3)), .op (.ev (.dat 3))]
 
 /-- stale cache files: header 1, header 3 and data 3 are delivered, the node is stopped cleanly (generation `wGen`
 of the caches: header 3, data 3 cached and seen) and restarted; data 2 and header 2 arrive and blocks 2 and 3 are
@@ -225,9 +238,15 @@ theorem wJunkFacts :
      (runJ wC wch3 wJunkOps).alive = true ∧ (runJ wC wch3 wJunkOps).store.height = 1 ∧
      (runJ wC wch3 (wJunkOps ++ wJunkRest)).store.height = 3 ∧ holdsChain3 (runJ wC wch3 (wJunkOps ++ wJunkRest)).store = true) ∧
     ((runJ wC wch3 wJunkStall).store.height = 1 ∧ (runJ wC wch3 wJunkStall).alive = true ∧
-     ready wC wch3 3 (evsOf (opsOf wJunkStall)) = 3) ∧
+     ready wC wch3 3 (evsOf (opsOf wJunkStall)) = 3 ∧
+     (runJ wC wch3 (wJunkStall ++ [.op (.ev (.dat 2))])).store.height = 3 ∧
+     checkJunk wch3 wJunkSame2 = true ∧
+     (wch3 2).map (·.data.daCommitment) = some wJunkSame2.daCommitment ∧
+     (runJ wC wch3 wSameA).store.height = 3 ∧ holdsChain3 (runJ wC wch3 wSameA).store = true ∧
+     (runJ wC wch3 wSameB).store.height = 3 ∧ holdsChain3 (runJ wC wch3 wSameB).store = true) ∧
     ((deliver wch3 wStaleBefore (.hdr 2)).2.length = 6 ∧ wGen.store.height = 1 ∧ recHeight wC wStaleImage = 2 ∧
-     (start wC wStaleImage wGen).map (fun p => (p.1.store.height, (runFrom wC wch3 p.1 wAll).store.height)) = some (2, 2) ∧
+     (start wC wStaleImage wGen).map (fun p => (p.1.store.height, decide (3 ∈ keysH p.1 ∧ 3 ∈ keysD p.1),
+       (runFrom wC wch3 p.1 [.ev (.hdr 1), .ev (.hdr 2), .ev (.hdr 3)]).store.height)) = some (2, true, 2) ∧
      (boot wC wStaleImage wGen).map (fun p => (p.1.store.height, p.1.lastState.lastHeight, holdsChain3 p.1.store, p.1.alive))
        = some (3, 3, true, true)) := by
   decide +kernel
@@ -237,10 +256,16 @@ theorem wf_junk : checkJunk wch3 wJunk2 = true ∧
     (runJ wC wch3 (wJunkOps ++ wJunkRest)).store.height = 3 ∧
     holdsChain3 (runJ wC wch3 (wJunkOps ++ wJunkRest)).store = true := wJunkFacts.1
 theorem wf_junkStall : (runJ wC wch3 wJunkStall).store.height = 1 ∧ (runJ wC wch3 wJunkStall).alive = true ∧
-    ready wC wch3 3 (evsOf (opsOf wJunkStall)) = 3 := wJunkFacts.2.1
+    ready wC wch3 3 (evsOf (opsOf wJunkStall)) = 3 ∧
+    (runJ wC wch3 (wJunkStall ++ [.op (.ev (.dat 2))])).store.height = 3 ∧
+    checkJunk wch3 wJunkSame2 = true ∧
+    (wch3 2).map (·.data.daCommitment) = some wJunkSame2.daCommitment ∧
+    (runJ wC wch3 wSameA).store.height = 3 ∧ holdsChain3 (runJ wC wch3 wSameA).store = true ∧
+    (runJ wC wch3 wSameB).store.height = 3 ∧ holdsChain3 (runJ wC wch3 wSameB).store = true := wJunkFacts.2.1
 theorem wf_stale : (deliver wch3 wStaleBefore (.hdr 2)).2.length = 6 ∧ wGen.store.height = 1 ∧
     recHeight wC wStaleImage = 2 ∧
-    (start wC wStaleImage wGen).map (fun p => (p.1.store.height, (runFrom wC wch3 p.1 wAll).store.height)) = some (2, 2) ∧
+    (start wC wStaleImage wGen).map (fun p => (p.1.store.height, decide (3 ∈ keysH p.1 ∧ 3 ∈ keysD p.1),
+       (runFrom wC wch3 p.1 [.ev (.hdr 1), .ev (.hdr 2), .ev (.hdr 3)]).store.height)) = some (2, true, 2) ∧
     (boot wC wStaleImage wGen).map (fun p => (p.1.store.height, p.1.lastState.lastHeight, holdsChain3 p.1.store, p.1.alive))
       = some (3, 3, true, true) := wJunkFacts.2.2
 
